@@ -22,6 +22,7 @@ _Val.declare("VRef", ("addr", z3.IntSort()))
 _Val.declare("VCls", ("cid", z3.IntSort()))
 _Val.declare("VFun", ("fid", z3.IntSort()))
 _Val.declare("VTup", ("items", _Lst))
+_Val.declare("VKey", ("khead", _Val), ("ktail", _Val))    # functools._make_key of (head, *rest): injective
 _Lst.declare("nil")
 _Lst.declare("cons", ("hd", _Val), ("tl", _Lst))
 Val, Lst = z3.CreateDatatypes(_Val, _Lst)
